@@ -165,7 +165,9 @@ def _fuzz_chunk(args):
 
 
 ARGS = ["", "undefined", "null", "NaN", "Infinity", "-Infinity", "-1", "0", "-0", "0.5", "300", "1e21", "5e-324", "2**53", "'5'", "'abc'", "'\\u00e9'", "({})", "[]", "[1,2]", "[[]]",
-        "(function(){})", "true", "({valueOf:function(){return 2}})"]
+        "(function(){})", "true", "({valueOf:function(){return 2}})",
+        # text that only LOOKS numeric to the host (str.isdigit / int() / float() accept it, the language does not), and very long numerals
+        "'\\u00b2'", "'\\u0663'", "'\\uff11\\uff12'", "'\\u2460'", "'1_0'", "' 12 '", "'\\u0661.5'", "'1'.repeat(5000)", "'0x' + 'f'.repeat(400)", "'0b' + '1'.repeat(1100)", "'9'.repeat(400) + '.5e1'"]
 CALLS = (["Math." + m for m in "abs floor ceil round trunc min max pow sqrt sin cos tan asin acos atan atan2 log exp sign imul fround clz32 hypot cbrt log2 log10 expm1 log1p".split()]
          + ["parseInt", "parseFloat", "isNaN", "isFinite", "Number", "String", "Boolean", "Array", "Object", "RegExp", "Error", "Number.isInteger", "Number.parseFloat", "String.fromCharCode",
             "JSON.parse", "JSON.stringify", "Object.keys", "Object.values", "Object.entries", "Object.assign", "Object.create", "Object.getPrototypeOf", "Object.setPrototypeOf",
@@ -316,4 +318,18 @@ def c04_bounded(tier="quick", seed=0):
                   witness=(badapi[0][0] if badapi else None), confirmed=True if badapi else None, domain=tota))
     if badapi:
         out[-1]["all"] = sorted({k for k in groups_})[:60]
+    return out
+
+
+@groups.group(id="C04.bounded.positions", prop="C04", kind="B", functions=["microjs.lexer:Lexer._skip_whitespace", "microjs.lexer:Lexer._advance"])
+def c04_positions(tier="quick", seed=0):
+    """a JSSyntaxError carries the position of the offending character, whatever trivia precedes it (the layouts of C13)"""
+    from contracts.C13_parsing import c13_positions
+    out = []
+    for o in c13_positions(tier, seed):
+        if o["id"].endswith(".syntax-error"):
+            o = dict(o)
+            o["id"] = o["id"].replace("C13.", "C04.", 1)
+            o["finding_key"] = o["id"]
+            out.append(o)
     return out
